@@ -576,6 +576,7 @@ func gen(r *rand.Rand, thorough bool, i int) (ops []string) {
 	var maxVersion, consecutiveUntil int64 = -1, -1
 	rd := round0
 	forkEmpty := 0
+	lastDel, lastDelVal := "", ""
 	for bi := 0; bi < nblocks; bi++ {
 		// a fork wins: roll back a few finalized blocks; the winning fork's blocks take the same rounds, one per round
 		// until it has passed the abandoned tip (as a chain does); its first blocks are often EMPTY
@@ -631,12 +632,46 @@ func gen(r *rand.Rand, thorough bool, i int) (ops []string) {
 			for k, v := range live {
 				tlive[k] = v
 			}
+			// a key deleted by the previous transaction of this block comes back (same value, or another one)
+			if lastDel != "" && r.Intn(2) == 0 {
+				v := lastDelVal
+				if r.Intn(3) == 0 {
+					v = vals[r.Intn(len(vals))]
+				}
+				ops = append(ops, "i "+lastDel+" "+v)
+				sim.txn.Insert(keyPath(salt, lastDel), &val{[]byte(v)})
+				tlive[lastDel] = v
+			}
+			lastDel, lastDelVal = "", ""
 			for oi := 1 + r.Intn(4); oi > 0; oi-- {
 				k := keys[r.Intn(len(keys))]
+				if r.Intn(5) == 0 {
+					// delete and re-insert within ONE transaction: the same value (the transaction's trie ends at the root
+					// it started from when nothing else changed) or another value
+					var present []string
+					for _, kk := range keys {
+						if tlive[kk] != "" {
+							present = append(present, kk)
+						}
+					}
+					if len(present) > 0 {
+						k = present[r.Intn(len(present))]
+						v := tlive[k]
+						if r.Intn(3) == 0 {
+							v = vals[r.Intn(len(vals))]
+						}
+						ops = append(ops, "d "+k, "i "+k+" "+v)
+						sim.txn.Delete(keyPath(salt, k))
+						sim.txn.Insert(keyPath(salt, k), &val{[]byte(v)})
+						tlive[k] = v
+						continue
+					}
+				}
 				switch x := r.Intn(10); {
 				case x < 3: // delete (sometimes of an absent key: an error, nothing changes)
 					ops = append(ops, "d "+k)
 					if _, err := sim.txn.Delete(keyPath(salt, k)); err == nil {
+						lastDel, lastDelVal = k, tlive[k]
 						delete(tlive, k)
 					}
 				case x < 5 && tlive[k] != "": // re-insert the identical value
@@ -656,6 +691,7 @@ func gen(r *rand.Rand, thorough bool, i int) (ops []string) {
 			if r.Intn(6) == 0 {
 				ops = append(ops, "a")
 				sim.txn = nil
+				lastDel, lastDelVal = "", ""
 			} else {
 				ops = append(ops, "c")
 				if err := sim.state.MergeMPTChanges(sim.txn); err != nil {
@@ -766,7 +802,28 @@ func oracle(ops, outs []string) *corr.Violation {
 		prevT         map[string]bool
 		everPersisted = map[string]int64{} // node -> round of the block that persisted it
 		tAt           = map[int64]map[string]bool{}
+		blockKV       = map[string]string{} // key -> value of the block state being built
+		txnKV         map[string]string
+		kvAt          = map[int64]map[string]string{}
 	)
+	cpKV := func(m map[string]string) map[string]string {
+		c := map[string]string{}
+		for k, v := range m {
+			c[k] = v
+		}
+		return c
+	}
+	sameKV := func(a, b map[string]string) bool {
+		if len(a) != len(b) {
+			return false
+		}
+		for k, v := range a {
+			if w, ok := b[k]; !ok || w != v {
+				return false
+			}
+		}
+		return true
+	}
 	for i, op := range ops {
 		w := strings.Fields(op)
 		o := outs[i]
@@ -780,6 +837,7 @@ func oracle(ops, outs []string) *corr.Violation {
 			lfb, _ = strconv.ParseInt(w[2], 10, 64)
 			finalized, version, prevT, everPersisted = map[int64]bool{}, -1, map[string]bool{}, map[string]int64{}
 			tAt = map[int64]map[string]bool{lfb: {}}
+			blockKV, kvAt = map[string]string{}, map[int64]map[string]string{lfb: {}}
 		case "rb":
 			// a fork wins: the blocks above the fork point are no longer part of the chain
 			r, _ := strconv.ParseInt(w[1], 10, 64)
@@ -794,15 +852,24 @@ func oracle(ops, outs []string) *corr.Violation {
 			if t, ok := tAt[r]; ok {
 				prevT = t
 			}
+			if m, ok := kvAt[r]; ok {
+				blockKV = cpKV(m)
+			}
 			lfb = r
 		case "b":
 			cur, _ = strconv.ParseInt(w[1], 10, 64)
 			abortedDel = false
 		case "t":
 			inTxn, txnDel = true, false
+			txnKV = cpKV(blockKV)
+		case "i":
+			if inTxn && o == "ok" && len(w) == 3 {
+				txnKV[w[1]] = w[2]
+			}
 		case "d":
 			if inTxn && o == "ok" {
 				txnDel = true
+				delete(txnKV, w[1])
 			}
 		case "a":
 			if txnDel {
@@ -811,6 +878,14 @@ func oracle(ops, outs []string) *corr.Violation {
 			inTxn = false
 		case "c":
 			inTxn = false
+			// a committed transaction that leaves the state as it found it ends at the root it started from:
+			// MergeMPTChanges skips it ("same root"), its trie is discarded exactly like an aborted one
+			if txnDel && sameKV(txnKV, blockKV) {
+				abortedDel = true
+			}
+			if o == "ok" && txnKV != nil {
+				blockKV = txnKV
+			}
 			if o != "ok" {
 				return mk("merge-fails", fmt.Sprintf("op %d: MergeMPTChanges answered %q", i, o))
 			}
@@ -827,7 +902,7 @@ func oracle(ops, outs []string) *corr.Violation {
 			}
 			for h := range t {
 				if !prevT[h] && !n[h] && abortedDel {
-					return mk("aborted-delete-corrupts-pending-node", fmt.Sprintf("op %d: after a transaction that deleted a key was aborted, the state of round %d holds node %s that is neither in the previous state nor among the nodes the block will persist (its pending copy in the change collector was altered): the finalized state cannot be read back from the node DB", i, cur, h))
+					return mk("aborted-delete-corrupts-pending-node", fmt.Sprintf("op %d: after a transaction that deleted a key was discarded (aborted, or committed without net change so that MergeMPTChanges skips it), the state of round %d holds node %s that is neither in the previous state nor among the nodes the block will persist (its pending copy in the change collector was altered): the finalized state cannot be read back from the node DB", i, cur, h))
 				}
 				if !prevT[h] && !n[h] {
 					return mk("state-node-from-nowhere", fmt.Sprintf("op %d: node %s of the state of round %d is neither new nor in the previous state", i, h, cur))
@@ -843,6 +918,7 @@ func oracle(ops, outs []string) *corr.Violation {
 			}
 			prevT = t
 			tAt[cur] = t
+			kvAt[cur] = cpKV(blockKV)
 			finalized[cur] = true
 			lfb = cur
 		case "prune":
@@ -878,6 +954,10 @@ func main() {
 			return 45
 		},
 		Fixed: [][]string{
+			// the same defect through a COMMITTED transaction: delete and re-insert of the same value returns the
+			// transaction's trie to the root it started from, MergeMPTChanges returns early, the trie is dropped
+			{"hist sZ 685", "b 686", "t", "i pd v2", "i pa v1", "c", "t", "d pa", "i pa v1", "c",
+				"fin N:5a1ced26302b,801bcdfcdef8,82115f3fcc09,8355fa12df14 D:- T:0800497dc1d5,5a1ced26302b,801bcdfcdef8,8355fa12df14", "check 686"},
 			// an aborted transaction that deleted a key: the sibling leaf pending in the block's change collector is altered
 			{"hist sX 4527", "b 4528", "t", "i pd v3", "i pb v1", "c", "t", "d pb", "a",
 				"fin N:464c744ec2d9,74a0d26e2596,7a89be110ea7,c458b111ff55 D:- T:464c744ec2d9,7a89be110ea7,9a5a92e0dbaa,c458b111ff55", "check 4528"},
